@@ -12,5 +12,5 @@ assert s.count(old) >= 1, "pattern not found: " + old
 s = s.replace(old, new, 1)
 open(p, 'w').write(s)
 PY
-VERIF_REPO=$D "$(cd "$(dirname "$0")/.." && pwd)/check" $PROP 2>&1 | cut -c1-${MUT_COLS:-220} | tail -${MUT_TAIL:-6} || true
+VERIF_REPO=$D VERIF_EVIDENCE_DIR=$D/ev VERIF_OUT_DIR=${MUT_OUT:-$D/out} "$(cd "$(dirname "$0")/.." && pwd)/check" $PROP 2>&1 | cut -c1-${MUT_COLS:-220} | tail -${MUT_TAIL:-6} || true
 rm -rf $D
